@@ -165,6 +165,7 @@ template <class Db> void run_db(const Args& a, Counters& c, int& item) {
   std::string only = a.get("zone");
   for (uint16_t zi = 0; zi < Db::size(); zi++) {
     if (!only.empty() && only != Db::name(Db::info(zi))) continue;
+    if ((long)((zi + a.seed) % a.getl("w1stride", 1)) != 0) continue;
     Job j; j.cfg.kind = K_OWN; j.cfg.zones = {Db::info(zi)}; j.cfg.nslots = 0; j.depth = 3; j.kname = "own";
     for (uint8_t o = 0; o < OP_N; o++) for (uint16_t ai : all_args) {
       if ((o == OP_PRINT || o == OP_PRINTSHORT) && ai != all_args[0]) continue;
@@ -208,7 +209,7 @@ template <class Db> void run_db(const Args& a, Counters& c, int& item) {
       for (int i = 0; i < N + extra; i++) j.cfg.zones.push_back(cz[(i * 3 + a.seed) % cz.size()]);
       std::set<const ZI*> uniq(j.cfg.zones.begin(), j.cfg.zones.end());
       if ((int)uniq.size() != N + extra) { j.cfg.zones.assign(cz.begin(), cz.begin() + N + extra); }
-      j.depth = a.thorough ? 16 : 10;
+      j.depth = a.getl("mdepth", a.thorough ? 16 : (N <= 2 ? 10 : 7));
       j.alpha = mk_alpha(N + extra, N >= 3 ? ma2 : ma);
       jobs.push_back(j);
     }
